@@ -210,6 +210,14 @@ def u_ctl():
     add("ctl-alias", ["a: %s" % Q2], Q2, ["b = a", "c = b", "return (a ^ b) + c"])
     add("ctl-alias", ["a: bool", "b: bool", "c: bool"], "bool", ["v = a and b", "x = v and c", "v = v ^ c", "y = v and c", "return x ^ y"])
     add("ctl-alias", ["a: bool", "b: bool", "c: bool"], "Tuple[bool, bool]", ["x = (a ^ b) and c", "y = a and c", "return (x ^ y, x)"])
+    # tuple typed elements of nested containers held in a variable, returned, iterated
+    add("ctl-subtuple", ["a: Qmatrix[bool, 2, 2]"], "bool", ["r = a[1]", "return r[0] and not r[1]"])
+    add("ctl-subtuple", ["a: Qlist[Tuple[bool, Qint[2]], 2]"], Q2, ["t = a[1]", "return t[1] + 1"])
+    add("ctl-subtuple", ["a: Tuple[Tuple[bool, bool], bool]"], "Tuple[bool, bool]", ["return a[0]"])
+    add("ctl-subtuple", ["a: Tuple[Tuple[bool, Qint[2]], bool]"], "Tuple[bool, Qint[2]]", ["b = a[0]", "return b"])
+    add("ctl-subtuple", ["a: Qmatrix[bool, 2, 2]"], "bool", ["c = False", "for x in a:", "    for y in x:", "        c = c ^ y", "return c"])
+    add("ctl-subtuple", ["a: Qmatrix[Qint[2], 2, 2]"], Q2, ["c = 0", "for x in a:", "    for y in x:", "        c += y", "return c"])
+    add("ctl-subtuple", ["a: Qmatrix[bool, 2, 2]", "i: bool"], "bool", ["r = a[1] if i else a[0]", "return r[0]"])
     # a returned alias of an argument still needs its own output qubit
     add("ctl-alias", ["a: bool", "b: bool"], "bool", ["v = a", "return v"])
     add("ctl-alias", ["a: bool", "b: bool"], "bool", ["v = b", "w = v", "return w"])
